@@ -1,10 +1,12 @@
 import BasicModel.ProtoAst
 import BasicModel.Model.Lex
+import BasicModel.Model.Renum
 /-
   `LEX <hex of the UTF-8 source line>`  →  `<number|-> <tokens> | <hex of to_string()>`
   with the tokens in the canonical text of `Proto.showToken`, separated by single blanks.
   `C05 <hex line>` is answered by the constant `ok` (the expected verdict of the C05 oracle) in
   `Driver.answer`.
+  `RENUMLINE <old>:<new>,… <hex line>` → `<number|-> <hex of to_string()>` of the renumbered line.
 -/
 open Basic Basic.Proto
 
@@ -17,6 +19,31 @@ def showLex (l : Line) : String :=
 def answerLex : List String → String
   | [h] => showLex (Lex.lineNew (strOfHex h))
   | [] => showLex (Lex.lineNew [])
+  | _ => "bad-request"
+
+/-- `10:100,20:110` (or `-` for the empty map) -/
+def readChanges (s : String) : Option (List (Nat × Nat)) :=
+  if s == "-" || s == "" then some []
+  else (s.splitOn ",").mapM fun p =>
+    match p.splitOn ":" with
+    | [a, b] => (match a.toNat?, b.toNat? with
+      | some a, some b => some (a, b)
+      | _, _ => none)
+    | _ => none
+
+/-- `RENUMLINE <old>:<new>,… <hex source line>` → `<num|-> <hex of to_string()>` of
+    `Line::new(src).renum(&changes)` -/
+def renumLine (ch h : String) : String :=
+  match readChanges ch with
+  | some changes =>
+    let l := Lex.lineRenum changes (Lex.lineNew (strOfHex h))
+    let n := match l.number with | some n => toString n | none => "-"
+    n ++ " " ++ hexOfStr (printLine l.number l.tokens)
+  | none => "bad-request"
+
+def answerRenumLine : List String → String
+  | [ch, h] => renumLine ch h
+  | [ch] => renumLine ch ""
   | _ => "bad-request"
 
 end Driver
